@@ -409,3 +409,17 @@ def upgma_greedy_ok(D, merges, tol):
         return False
 
     return rec(start, todo)
+
+
+def upgma_has_ties(D, tol):
+    """Naive average-linkage clustering; True if at some step the smallest cluster distance is not unique
+    (then more than one UPGMA tree exists)."""
+    clusters = [frozenset([i]) for i in range(len(D))]
+    while len(clusters) > 1:
+        ds = sorted((avg_link(D, clusters[i], clusters[j]), i, j) for i in range(len(clusters)) for j in range(i))
+        if len(ds) > 1 and ds[1][0] - ds[0][0] <= tol * max(1.0, ds[0][0]):
+            return True
+        _, i, j = ds[0]
+        merged = clusters[i] | clusters[j]
+        clusters = [c for k, c in enumerate(clusters) if k not in (i, j)] + [merged]
+    return False
